@@ -110,6 +110,7 @@ func genDevs(node interface{}, path []interface{}, out *[]dev) {
 		if _, err := time.ParseDuration(v); err == nil {
 			add("set", "0s", "0s")
 			add("set", "-1s", "-1s")
+			add("set", "999999ns", "999999ns") // positive, but 0 once truncated to whole milliseconds
 		} else {
 			add("set", "zz-unsupported", "zz-unsupported")
 		}
